@@ -461,9 +461,6 @@ func runDocOnce(c *seqCase, o obs, scratch string, idx int) *result {
 		fail := func(class, what string) *result {
 			return &result{Key: "doc/written/" + class + tag, What: fmt.Sprintf("round %d: %s", round, what), OpIndex: -1, keyClass: kc}
 		}
-		if os.Getenv("C39_DEBUG") != "" {
-			fmt.Fprintf(os.Stderr, "DEBUG round %d tree before write: %s\n  root.D=%v\n", round, ctx.Names[c.Doc].String(), ctx.Names[c.Doc].D)
-		}
 		if err := writeCtx(ctx, path); err != nil {
 			return fail("write-error", fmt.Sprintf("WriteContextFile: %v", err))
 		}
